@@ -71,7 +71,7 @@ fn main() {
                         em.case("exact", &tags, &format!("DateTime<{}>({}) {} {:?} = TimeDelta{{months:{}, ns:{}}}", uname(u), x, op, s, months, ns),
                             || format!("(r_dt{} {} {} {})", op, uname(u), z(x), td_coq(months, ns)), || {
                             with_unit!(u, U => {
-                                let d = DateTime::<U>::new(x);
+                                prime(x, u); let d = DateTime::<U>::new(x);
                                 // the parse result itself is checked by the fn=tdparse case; a parse error must not abort the harness
                                 let t = if mask != 0 { TimeDelta::parse(&s).unwrap_or_else(|_| td(months, ns)) } else { td(0, 0) };
                                 gi(|| if op == "add" { (d + t).into_i64() } else { (d - t).into_i64() })
@@ -96,7 +96,7 @@ fn main() {
                             &format!("DateTime<{}>({}) {} TimeDelta{{months:{}, ns:{}}}", uname(u), x, op, m, ns),
                             || format!("(r_dt{} {} {} {})", op, uname(u), z(x), td_coq(m, ns)), || {
                             with_unit!(u, U => {
-                                let d = DateTime::<U>::new(x);
+                                prime(x, u); let d = DateTime::<U>::new(x);
                                 let t = td(m, ns);
                                 gi(|| if op == "add" { (d + t).into_i64() } else { (d - t).into_i64() })
                             })
@@ -124,7 +124,7 @@ fn main() {
                                    else { format!("(DateTime<{}>({}) - {:?}) + same  [ns={}]", uname(u), x, s, ns) };
                         em.case("exact", &tags, &desc, || format!("({} {} {} {})", f, uname(u), z(x), coq_z(ns)), || {
                             with_unit!(u, U => {
-                                let d = DateTime::<U>::new(x);
+                                prime(x, u); let d = DateTime::<U>::new(x);
                                 let t = td(0, ns);
                                 g(|| if first_add { d + t } else { d - t }, |y| {
                                     let mut c = vec![int(y.into_i64())];
@@ -146,7 +146,7 @@ fn main() {
                         &format!("(DateTime<{}>({}) + {}ns) - {}ns", uname(u), x, ns, ns),
                         || format!("(r17_rt {} {} {})", uname(u), z(x), coq_z(ns)), || {
                         with_unit!(u, U => {
-                            let d = DateTime::<U>::new(x);
+                            prime(x, u); let d = DateTime::<U>::new(x);
                             let t = td(0, ns);
                             g(|| d + t, |y| { let mut c = vec![int(y.into_i64())]; c.extend(gi(|| (y - t).into_i64())); c })
                         })
@@ -176,7 +176,7 @@ fn main() {
                 &format!("a = DateTime<{}>({}), b = ({}): a - b, then b + (a - b)", uname(u), a, b),
                 || format!("(r17_ab {} {} {})", uname(u), z(a), z(b)), || {
                 with_unit!(u, U => {
-                    let (da, db) = (DateTime::<U>::new(a), DateTime::<U>::new(b));
+                    prime(b, u); prime(a, u); let (da, db) = (DateTime::<U>::new(a), DateTime::<U>::new(b));
                     g(|| da - db, |d| { let mut c = td_cells(&d); c.extend(gi(|| (db + d).into_i64())); c })
                 })
             });
@@ -257,7 +257,7 @@ fn main() {
                 em.case("exact", &tags, &format!("DateTime<{}>({}) {} {} months: result, its y/m/d, time of day", uname(u), x, if add { "+" } else { "-" }, k),
                     || format!("(r17_months {} {} {} {})", uname(u), z(x), coq_z(k as i128), coq_bool(add)), || {
                     with_unit!(u, U => {
-                        let d = DateTime::<U>::new(x);
+                        prime(x, u); let d = DateTime::<U>::new(x);
                         let t = td(k, 0);
                         g(|| if add { d + t } else { d - t }, |y| {
                             // an unrepresentable result is NaT: its fields are None cells, never an unwrap here
@@ -388,7 +388,7 @@ fn main() {
                 em.case("exact", &tags, &format!("DateTime<{}>({}).duration_trunc(TimeDelta{{months:{}, ns:{}}})", uname(u), x, m, ns),
                     || format!("(r17_trunc {} {} {})", uname(u), z(x), td_coq(m, ns)), || {
                     with_unit!(u, U => {
-                        let d = DateTime::<U>::new(x);
+                        prime(x, u); let d = DateTime::<U>::new(x);
                         let t = td(m, ns);
                         let c = gi(|| d.duration_trunc(t).into_i64());
                         let mut cc = c.clone();
